@@ -7,7 +7,7 @@ import sys
 import time
 
 VERIF = os.path.dirname(os.path.dirname(os.path.abspath(__file__)))
-EVIDENCE_DIR = os.path.join(VERIF, 'evidence')
+EVIDENCE_DIR = os.path.join(VERIF, 'evidence' if os.environ.get('PYVC_REPO', '/repo') == '/repo' else 'evidence-scratch')
 REPLAY_DIR = os.path.join(VERIF, 'replays')
 KNOWN_FILE = os.path.join(VERIF, 'known_findings.json')
 
